@@ -168,9 +168,26 @@ func (im *impl) checkAPI(snap *te.VerifSnap, step int, tags string, out *[]findi
 		if y < len(im.fe.shadow) {
 			if rowString(im.fe.shadow[y]) != rowString(got) {
 				add("C10", "shadow", fmt.Sprintf("row %d: frontend copy %s, screen %s", y, rowString(im.fe.shadow[y]), rowString(got)))
+				if classesOf(tags)["mode"] {
+					// a frontend that reads the screen back when it is told of a buffer switch must see the new buffer
+					add("C17", "shadow-after-switch", fmt.Sprintf("row %d: frontend copy %s, screen %s", y, rowString(im.fe.shadow[y]), rowString(got)))
+				}
 				copy(im.fe.shadow[y], got) // report once
 			}
 		}
+	}
+	// what an accessor returned belongs to the caller: the row fetched after the previous step
+	// still reads as it did then, whatever the terminal has done since
+	if im.keptLine != nil {
+		if now := rowString(expandLine(*im.keptLine, im.gmode)); now != im.keptText {
+			for _, pr := range []string{"C02", "C15"} {
+				add(pr, "accessor-aliases-buffer", fmt.Sprintf("a Line returned by StyledLine(0,%d,%d) before this step changed under the caller: was %s, now %s", im.keptW, im.keptY, im.keptText, now))
+			}
+		}
+	}
+	if s.CY < h {
+		l := im.term.StyledLine(0, w, s.CY)
+		im.keptLine, im.keptText, im.keptW, im.keptY = &l, rowString(expandLine(l, im.gmode)), w, s.CY
 	}
 	// sub-range reads (what a frontend repainting an announced region uses): StyledLine(x,n,y)
 	// shows exactly the cells x..x+n-1 of the row, a wide character cut by either edge as blanks;
